@@ -367,7 +367,7 @@ def nesting3_programs(tier):
     """depth 3: every ordered TRIPLE of the 12 macros — the innermost macro inside the initial operand / inside a block capture of
     the middle macro, which sits inside an operand / block capture / handler of the outer one. quick: all 1728 triples with the
     position pair (capture, operand) and, for the sequential / thread-spawning / async representatives as middle macro, all six
-    position pairs; thorough: all six position pairs whenever the middle macro is one of the four representatives."""
+    position pairs; thorough: all triples x all six position pairs."""
     progs = []
     reps_mid = ("try_join", "spawn", "join_async", "try_async_spawn")
     for outer in ALL_MACROS:
@@ -376,9 +376,6 @@ def nesting3_programs(tier):
                 for pos1 in ("operand", "capture", "handler"):
                     for pos2 in ("operand", "capture"):
                         if tier == "quick" and not ((pos1, pos2) == ("capture", "operand") or (mid in reps_mid and inn in reps_mid)):
-                            continue
-                        # thorough: all six position pairs whenever the middle macro is a representative (any outer, any inner macro)
-                        if tier != "quick" and not ((pos1, pos2) == ("capture", "operand") or mid in reps_mid):
                             continue
                         # which thread evaluates what: tokio::spawn needs the runtime context of the executing thread
                         ctx = True  # the harness thread has entered a runtime whenever a task-spawning macro takes part
